@@ -3,7 +3,8 @@
    the functions of C06/Model.v that the correspondence tie executes. *)
 From Coq Require Import List ZArith Bool Reals Lra Lia String Ascii.
 From T4V Require Import Base.Str Base.Scalar C06.Model
-     C06.ProofsIndex C06.ProofsNumeric C06.ProofsDevelop C06.ProofsTop C06.ProofsText.
+     C06.ProofsIndex C06.ProofsNumeric C06.ProofsDevelop C06.ProofsTop C06.ProofsText
+     C06.ProofsEndToEnd.
 Import ListNotations.
 
 (* ---- index order ----------------------------------------------------------
@@ -324,6 +325,50 @@ Proof.
   - now apply (parse_lattice_too_many head cell strs bs).
 Qed.
 Print Assumptions C06_parse_lattice_option.
+
+(* ---- end to end: which points belong to a volume of which material ----------
+   Interface restated from C05/C04 (not proved here): cell_transform(key, T)
+   creates a cell whose region is the image of the region of key under apply_tr T;
+   pot_fill of a cell with fill universe u and non-empty fill transformation F
+   creates, for every developed leaf cell (r, m) of universe u, the volume
+   cell /\ image of r under F, with material m (lattice_volumes / volumes_of_elem).
+   lattice_owner p m = what MCNP means: p lies in the unit cell translated by
+   t = i a1 + j a2 + k a3 for a tuple (i,j,k) of the declared ranges whose array
+   entry u (first index fastest) is not 0, and either u is the lattice's own
+   universe and m the lattice cell's material, or p = t + placement(q) for a
+   point q of a leaf cell of universe u with material m. *)
+Theorem C06_lattice_end_to_end :
+  forall (M : Type) (unit_cell : region) (own_mat : M) (leaves : Z -> list (region * M))
+         (cell : @lat_cell R) (vecs : list (@vec R)) (bs : bounds) (spec : list Z),
+  lc_fill cell = FSpec bs spec -> bs <> [] -> wf_bounds bs ->
+  Z.of_nat (List.length spec) = size bs ->
+  (List.length vecs <= List.length bs)%nat -> Forall trivial_range (skipn (List.length vecs) bs) ->
+  cell_shape_ok cell ->
+  exists elems, develop_lattice_with RS (Ok vecs) cell = Ok elems /\
+    forall p m, (exists r, In (r, m) (lattice_volumes unit_cell own_mat leaves elems) /\ r p) <->
+                lattice_owner unit_cell own_mat leaves cell vecs bs spec p m.
+Proof. intros M. exact (@lattice_end_to_end M). Qed.
+Print Assumptions C06_lattice_end_to_end.
+
+(* the same from the surfaces of the cell card (three pairs of planes) *)
+Theorem C06_lattice_end_to_end_3d :
+  forall (M : Type) (unit_cell : region) (own_mat : M) (leaves : Z -> list (region * M))
+         (dic : Z -> list (@plane R * Z)) (ids : list Z) (cell : @lat_cell R) (bs : bounds)
+         (spec : list Z) sa sb sc sd se sf,
+  lc_fill cell = FSpec bs spec -> bs <> [] -> wf_bounds bs ->
+  Z.of_nat (List.length spec) = size bs ->
+  (3 <= List.length bs)%nat -> Forall trivial_range (skipn 3 bs) -> cell_shape_ok cell ->
+  extract_surfaces dic ids = [sa; sb; sc; sd; se; sf] ->
+  spacing sa sb <> 0%R -> spacing sc sd <> 0%R -> spacing se sf <> 0%R ->
+  triple (outward sa) (outward sc) (outward se) <> 0%R ->
+  exists a1 a2 a3 elems, develop_lattice RS dic ids cell = Ok elems /\
+    dot a1 (outward sa) = spacing sa sb /\ dot a1 (outward sc) = 0%R /\ dot a1 (outward se) = 0%R /\
+    dot a2 (outward sa) = 0%R /\ dot a2 (outward sc) = spacing sc sd /\ dot a2 (outward se) = 0%R /\
+    dot a3 (outward sa) = 0%R /\ dot a3 (outward sc) = 0%R /\ dot a3 (outward se) = spacing se sf /\
+    forall p m, (exists r, In (r, m) (lattice_volumes unit_cell own_mat leaves elems) /\ r p) <->
+                lattice_owner unit_cell own_mat leaves cell [a1; a2; a3] bs spec p m.
+Proof. intros M. exact (@lattice_end_to_end_3d M). Qed.
+Print Assumptions C06_lattice_end_to_end_3d.
 
 (* ---- FILL arrays on the cell card (ParseMCNPCell.parse_fill_kw) -----------------
    tokens in reading order after "(", ")" and "=" have become blanks.
